@@ -55,6 +55,9 @@ def run_vx(unit_list, units, workdir):
                         it[k] = e.opts[k]
                 if 'opaque_fields' in e.opts:
                     it['opaque_fields'] = e.opts['opaque_fields'].split(',')
+                for k in ('custom_iters', 'box_receivers', 'opaque_calls'):
+                    if k in e.opts:
+                        it[k] = [x.strip() for x in e.opts[k].split(',')]
                 bl = (shapes().get("%s :: %s" % (e.file, e.sel)) or {}).get('loops')
                 if bl and USE_BASELINE_LOOPS:
                     it['baseline_loops'] = bl
